@@ -22,12 +22,12 @@ import (
 
 // Event is one observation.
 type Event struct {
-	Step   int               `json:"step"`
-	Kind   string            `json:"kind"` // step | OnCreate | OnLogon | OnLogout | ToAdmin | ToApp | FromAdmin | FromApp | store | timer | out | closed
-	Detail string            `json:"detail,omitempty"`
-	Msg    string            `json:"msg,omitempty"` // | for SOH
-	Fields fixwire.Fields    `json:"-"`
-	Seq    int               `json:"seq,omitempty"`
+	Step   int            `json:"step"`
+	Kind   string         `json:"kind"` // step | OnCreate | OnLogon | OnLogout | ToAdmin | ToApp | FromAdmin | FromApp | store | timer | out | closed
+	Detail string         `json:"detail,omitempty"`
+	Msg    string         `json:"msg,omitempty"` // | for SOH
+	Fields fixwire.Fields `json:"-"`
+	Seq    int            `json:"seq,omitempty"`
 	// snapshot at the time of the event (callbacks and end of step)
 	State                  string `json:"state,omitempty"`
 	NextSender, NextTarget int    `json:"-"`
@@ -86,10 +86,10 @@ type Lab struct {
 	step  int
 	Conn  int // connection counter
 	// OutThisStep collects the outbound frames of the current step.
-	OutThisStep []fixwire.Fields
-	RawThisStep [][]byte
+	OutThisStep    []fixwire.Fields
+	RawThisStep    [][]byte
 	ClosedThisStep bool
-	closedSeen bool
+	closedSeen     bool
 }
 
 // App is the recording Application stub; behaviour is pluggable.
